@@ -803,7 +803,7 @@ func mdBytes(md *store.KVMetadata) []byte {
 
 func TestExportReplicate(t *testing.T) {
 	ctx := context.Background()
-	vk.Check(t, 1200, 12000, func(rt *rapid.T, c *vk.Case) {
+	vk.Check(t, 1200, 8000, func(rt *rapid.T, c *vk.Case) {
 		pc := storeCfg{
 			fileSize:    rapid.SampledFrom([]int{256, 1024, 1 << 16, 1 << 20}).Draw(rt, "pFileSize"),
 			embedded:    rapid.Bool().Draw(rt, "pEmbedded"),
